@@ -2,12 +2,23 @@ package main
 
 import (
 	"fmt"
+	"go/ast"
 	"go/constant"
+	"go/types"
+	"os"
+	"path/filepath"
+	"regexp"
+	"strings"
 )
 
-// Gen/Big5.lean: the default table-file names of types/00-config.go (C17). The Lean driver reads
-// the files named here (relative to the repository root); the tables themselves are far too large
-// for a Lean literal and are parsed at run time by the modelled parser.
+// Gen/Big5.lean (C17):
+//   - the default table-file names of types/00-config.go (the Lean driver reads the files; the tables are far too
+//     large for a Lean literal and are parsed at run time by the modelled parser);
+//   - types/config.go config(): for every `X = setStringConfig("KEY", DEFAULT)` (also behind a conversion, also
+//     setInt/setBool…) the tuple (variable, setter, key, viper key, default expression) in source order — which ini
+//     key feeds which table path is part of the mechanism, Props/C17 pins it by a kernel-checked theorem and the
+//     driver resolves the configured paths from exactly this list;
+//   - the [go-pttbbs:types] section of docs/config/01-config.docker.ini (the shipped deployment configuration).
 func init() {
 	register("Big5", func(l *loader, repo, out string) {
 		p := l.load("types")
@@ -18,8 +29,124 @@ func init() {
 			if !ok || tv.Value == nil || tv.Value.Kind() != constant.String {
 				fatal("types.%s: initialiser is not a string constant", v.goName)
 			}
-			lf.raw(fmt.Sprintf("def %s : String := %q\n", v.lean, constant.StringVal(tv.Value)))
+			lf.raw(fmt.Sprintf("def %s : String := %s\n", v.lean, big5LeanStr(constant.StringVal(tv.Value))))
 		}
+		prefix := constString(p, "configPrefix")
+		lf.raw(fmt.Sprintf("def configPrefix : String := %s\n\n", big5LeanStr(prefix)))
+
+		// ---- config() -------------------------------------------------------------------------------------
+		lf.raw("/-- one `X = setTConfig(\"KEY\", DEFAULT)` of types/config.go config(); `viperKey` is what\nconfigutil.SetTConfig looks up: prefix + \".\" + lower(KEY). -/\n")
+		lf.raw("structure CfgRead where\n  var : String\n  setter : String\n  key : String\n  viperKey : String\n  dflt : String\n  deriving DecidableEq, Repr\n\n")
+		var fn *ast.FuncDecl
+		for _, f := range p.Syntax {
+			for _, d := range f.Decls {
+				if fd, ok := d.(*ast.FuncDecl); ok && fd.Recv == nil && fd.Name.Name == "config" {
+					fn = fd
+				}
+			}
+		}
+		if fn == nil || fn.Body == nil {
+			fatal("types: func config() not found")
+		}
+		setterRe := regexp.MustCompile(`^set[A-Za-z]+Config$`)
+		var rows []string
+		for _, st := range fn.Body.List {
+			as, ok := st.(*ast.AssignStmt)
+			if !ok || len(as.Lhs) != 1 || len(as.Rhs) != 1 || as.Tok.String() != "=" {
+				fatal("types.config(): unsupported statement at %v", p.Fset.Position(st.Pos()))
+			}
+			lhs, ok := as.Lhs[0].(*ast.Ident)
+			if !ok {
+				fatal("types.config(): left-hand side is not a variable at %v", p.Fset.Position(st.Pos()))
+			}
+			call, ok := ast.Unparen(as.Rhs[0]).(*ast.CallExpr)
+			if !ok {
+				fatal("types.config(): right-hand side is not a call at %v", p.Fset.Position(st.Pos()))
+			}
+			// unwrap a conversion T(setXConfig(...))
+			if tv, isT := p.TypesInfo.Types[call.Fun]; isT && tv.IsType() && len(call.Args) == 1 {
+				inner, ok := ast.Unparen(call.Args[0]).(*ast.CallExpr)
+				if !ok {
+					fatal("types.config(): conversion of a non-call at %v", p.Fset.Position(st.Pos()))
+				}
+				call = inner
+			}
+			fid, ok := call.Fun.(*ast.Ident)
+			if !ok || !setterRe.MatchString(fid.Name) || len(call.Args) != 2 {
+				fatal("types.config(): not a setTConfig(key, default) call at %v", p.Fset.Position(st.Pos()))
+			}
+			ktv := p.TypesInfo.Types[call.Args[0]]
+			if ktv.Value == nil || ktv.Value.Kind() != constant.String {
+				fatal("types.config(): key is not a string constant at %v", p.Fset.Position(st.Pos()))
+			}
+			key := constant.StringVal(ktv.Value)
+			dflt := types.ExprString(call.Args[1])
+			rows = append(rows, fmt.Sprintf("  ⟨%s, %s, %s, %s, %s⟩", big5LeanStr(lhs.Name), big5LeanStr(fid.Name), big5LeanStr(key),
+				big5LeanStr(prefix+"."+strings.ToLower(key)), big5LeanStr(dflt)))
+		}
+		lf.raw("def configReads : List CfgRead := [\n" + strings.Join(rows, ",\n") + "]\n\n")
+
+		// ---- the shipped docker ini ----------------------------------------------------------------------------
+		iniPath := filepath.Join(repo, "docs", "config", "01-config.docker.ini")
+		b, err := os.ReadFile(iniPath)
+		if err != nil {
+			fatal("%v", err)
+		}
+		var kv []string
+		for _, e := range big5IniSection(string(b), prefix) {
+			kv = append(kv, fmt.Sprintf("  (%s, %s)", big5LeanStr(strings.ToLower(e[0])), big5LeanStr(e[1])))
+		}
+		if len(kv) == 0 {
+			fatal("%s: no [%s] section", iniPath, prefix)
+		}
+		lf.raw("/-- [" + prefix + "] of docs/config/01-config.docker.ini: (lower-case key, value). -/\n")
+		lf.raw("def dockerIni : List (String × String) := [\n" + strings.Join(kv, ",\n") + "]\n")
 		lf.write(out)
 	})
+}
+
+// big5IniSection returns the key/value pairs of one section (inline ` #`/` ;` comments stripped).
+func big5IniSection(text, section string) (out [][2]string) {
+	in := false
+	for _, line := range strings.Split(text, "\n") {
+		line = strings.TrimSpace(line)
+		if strings.HasPrefix(line, "[") && strings.HasSuffix(line, "]") {
+			in = line[1:len(line)-1] == section
+			continue
+		}
+		if !in || line == "" || line[0] == '#' || line[0] == ';' {
+			continue
+		}
+		k, v, ok := strings.Cut(line, "=")
+		if !ok {
+			continue
+		}
+		v = strings.TrimSpace(v)
+		for _, c := range []string{" #", " ;", "\t#", "\t;"} {
+			if i := strings.Index(v, c); i >= 0 {
+				v = strings.TrimSpace(v[:i])
+			}
+		}
+		out = append(out, [2]string{strings.TrimSpace(k), v})
+	}
+	return out
+}
+
+// big5LeanStr renders a Go string as a Lean string literal (printable ASCII only is expected here).
+func big5LeanStr(s string) string {
+	var b strings.Builder
+	b.WriteByte('"')
+	for _, r := range s {
+		switch {
+		case r == '"' || r == '\\':
+			b.WriteByte('\\')
+			b.WriteRune(r)
+		case r < 0x20 || r == 0x7f:
+			fmt.Fprintf(&b, "\\x%02x", r)
+		default:
+			b.WriteRune(r)
+		}
+	}
+	b.WriteByte('"')
+	return b.String()
 }
